@@ -162,6 +162,161 @@ fn outdirs() -> Option<(PathBuf, PathBuf)> {
     Some((core?, prof?))
 }
 
+/// (f) The build scripts are programs with an environment. Cargo tells them the optimisation
+/// level, the profile, whether debug info is on, the target's pointer width and endianness, and
+/// they run in some working directory under some locale. The tables they emit are data: they must
+/// not depend on any of that. Each compiled build script is re-run with OUT_DIR pointing at a
+/// scratch directory under the default build environment and under every single deviation from it,
+/// and every emitted file must be byte-identical to what the real build (checked in (a)) produced.
+pub fn check_build_script_environments(st: &mut Stats) {
+    let (core_out, prof_out) = match outdirs() {
+        Some(x) => x,
+        None => return,
+    };
+    let scripts: Vec<(String, PathBuf)> = match std::env::var_os("PMC_BUILDSCRIPTS").and_then(|f| std::fs::read_to_string(f).ok()) {
+        Some(t) => t
+            .lines()
+            .filter_map(|l| {
+                let mut it = l.split_whitespace();
+                Some((it.next()?.to_string(), PathBuf::from(it.next()?)))
+            })
+            .filter(|(_, p)| p.exists())
+            .collect(),
+        None => {
+            st.note("build-script environments: the compiled build scripts are not known here (run through ./check); skipped".into());
+            return;
+        }
+    };
+    let deviations: Vec<(&str, Vec<(&str, &str)>)> = vec![
+        ("default", vec![]),
+        ("OPT_LEVEL=0", vec![("OPT_LEVEL", "0")]),
+        ("OPT_LEVEL=1", vec![("OPT_LEVEL", "1")]),
+        ("OPT_LEVEL=2", vec![("OPT_LEVEL", "2")]),
+        ("OPT_LEVEL=s", vec![("OPT_LEVEL", "s")]),
+        ("OPT_LEVEL=z", vec![("OPT_LEVEL", "z")]),
+        ("PROFILE=debug", vec![("PROFILE", "debug"), ("DEBUG", "true"), ("CARGO_CFG_DEBUG_ASSERTIONS", "")]),
+        ("DEBUG=true", vec![("DEBUG", "true")]),
+        ("32-bit target", vec![("CARGO_CFG_TARGET_POINTER_WIDTH", "32"), ("TARGET", "i686-unknown-linux-gnu"), ("CARGO_CFG_TARGET_ARCH", "x86")]),
+        ("big-endian target", vec![("CARGO_CFG_TARGET_ENDIAN", "big"), ("TARGET", "powerpc64-unknown-linux-gnu"), ("CARGO_CFG_TARGET_ARCH", "powerpc64")]),
+        ("windows target", vec![("CARGO_CFG_TARGET_OS", "windows"), ("CARGO_CFG_TARGET_FAMILY", "windows"), ("TARGET", "x86_64-pc-windows-msvc"), ("CARGO_CFG_WINDOWS", "")]),
+        ("cwd=/", vec![("__CWD", "/")]),
+        ("Turkish locale", vec![("LANG", "tr_TR.UTF-8"), ("LC_ALL", "tr_TR.UTF-8")]),
+        ("NUM_JOBS=64", vec![("NUM_JOBS", "64")]),
+    ];
+    let scratch = Scratch::new("bsenv");
+    let jobs: Vec<(usize, usize)> = (0..scripts.len()).flat_map(|i| (0..deviations.len()).map(move |j| (i, j))).collect();
+    let results: Vec<(usize, usize, Result<Vec<String>, String>)> = jobs
+        .par_iter()
+        .map(|&(i, j)| {
+            let (krate, exe) = &scripts[i];
+            let (_, devs) = &deviations[j];
+            let out = scratch.dir.join(format!("{}-{}", krate, j));
+            let _ = std::fs::create_dir_all(&out);
+            let manifest = repo_dir().join(krate);
+            let mut cmd = std::process::Command::new(exe);
+            cmd.env("OUT_DIR", &out)
+                .env("CARGO_MANIFEST_DIR", &manifest)
+                .env("OPT_LEVEL", "3")
+                .env("PROFILE", "release")
+                .env("DEBUG", "false")
+                .env("TARGET", "x86_64-unknown-linux-gnu")
+                .env("HOST", "x86_64-unknown-linux-gnu")
+                .env("NUM_JOBS", "16")
+                .env("CARGO_CFG_TARGET_POINTER_WIDTH", "64")
+                .env("CARGO_CFG_TARGET_ENDIAN", "little")
+                .env("CARGO_CFG_TARGET_OS", "linux")
+                .env("CARGO_CFG_TARGET_FAMILY", "unix")
+                .env("CARGO_CFG_TARGET_ARCH", "x86_64")
+                .env("CARGO_CFG_UNIX", "")
+                .env_remove("CARGO_CFG_DEBUG_ASSERTIONS")
+                .env_remove("CARGO_CFG_WINDOWS")
+                .current_dir(&manifest);
+            for (k, v) in devs {
+                if *k == "__CWD" {
+                    cmd.current_dir(v);
+                } else {
+                    cmd.env(k, v);
+                }
+            }
+            let r = match cmd.output() {
+                Err(e) => Err(format!("cannot run {}: {}", exe.display(), e)),
+                Ok(o) if !o.status.success() => Err(format!("exit {:?}: {}", o.status, String::from_utf8_lossy(&o.stderr).lines().last().unwrap_or(""))),
+                Ok(_) => {
+                    let base = if krate == "precis-core" { &core_out } else { &prof_out };
+                    let mut diffs = Vec::new();
+                    let mut names: Vec<String> = std::fs::read_dir(base).map(|d| d.flatten().map(|e| e.file_name().to_string_lossy().to_string()).collect()).unwrap_or_default();
+                    names.sort();
+                    for n in &names {
+                        let a = std::fs::read(base.join(n)).unwrap_or_default();
+                        let b = std::fs::read(out.join(n)).ok();
+                        match b {
+                            None => diffs.push(format!("{} missing", n)),
+                            Some(b) if b != a => {
+                                let at = a.iter().zip(b.iter()).position(|(x, y)| x != y).unwrap_or(a.len().min(b.len()));
+                                let line = a[..at.min(a.len())].iter().filter(|c| **c == b'\n').count() + 1;
+                                diffs.push(format!("{} differs from line {} ({} vs {} bytes)", n, line, a.len(), b.len()));
+                            }
+                            _ => {}
+                        }
+                    }
+                    let extra: Vec<String> = std::fs::read_dir(&out).map(|d| d.flatten().map(|e| e.file_name().to_string_lossy().to_string()).filter(|n| !names.contains(n)).collect()).unwrap_or_default();
+                    for n in extra {
+                        diffs.push(format!("{} is an additional file", n));
+                    }
+                    Ok(diffs)
+                }
+            };
+            (i, j, r)
+        })
+        .collect();
+    // the default environment must reproduce the real build, otherwise this scenario shows nothing
+    for (i, (krate, _)) in scripts.iter().enumerate() {
+        let default_ok = results.iter().any(|(a, b, r)| *a == i && *b == 0 && matches!(r, Ok(d) if d.is_empty()));
+        if !default_ok {
+            st.note(format!("build-script environments: re-running the build script of {} by hand does not reproduce cargo's output; scenario skipped for it", krate));
+            continue;
+        }
+        for (a, b, r) in &results {
+            if *a != i || *b == 0 {
+                continue;
+            }
+            st.states += 1;
+            st.transitions += 1;
+            st.evaluations += 1;
+            let (dev, _) = &deviations[*b];
+            let mk = || Case::new("build_env").x(json!([krate, dev]));
+            match r {
+                Ok(d) if d.is_empty() => st.count("out:build-env-identical"),
+                Ok(d) => {
+                    // a different layout is not a defect in itself: what the tables DENOTE decides.
+                    // The full check of (a) runs on this environment's output (the other crate's
+                    // tables are taken from the real build).
+                    let here = scratch.dir.join(format!("{}-{}", krate, b));
+                    let mut sub = Stats::default();
+                    if krate == "precis-core" {
+                        check_built_tables_in(here, prof_out.clone(), &mut sub);
+                    } else {
+                        check_built_tables_in(core_out.clone(), here, &mut sub);
+                    }
+                    if sub.violations.is_empty() && sub.caps_hit.is_empty() {
+                        st.count("out:build-env-different-layout-same-denotation");
+                        st.note(format!("build environment '{}' makes the build script of {} emit different text ({}), denoting the same tables", dev, krate, d.join("; ")));
+                    } else {
+                        let what: Vec<String> = sub.violations.iter().take(3).map(|v| format!("[{}] expected {} got {}", v.kind, v.expected, v.actual)).chain(sub.caps_hit.iter().cloned()).collect();
+                        st.violation(
+                            "build_environment",
+                            mk,
+                            "tables that denote exactly what the input files assign, in every build environment".into(),
+                            format!("{}: {} => {}", dev, d.join("; "), what.join(" | ")).chars().take(900).collect(),
+                        );
+                    }
+                }
+                Err(e) => st.violation("build_environment", mk, "the build script succeeds as in the default environment".into(), format!("{}: {}", dev, e)),
+            }
+        }
+    }
+}
+
 fn gc_table_name(name: &str) -> Option<&'static str> {
     Some(match name {
         "LOWERCASE_LETTER" => "Ll",
@@ -205,6 +360,11 @@ pub fn check_built_tables(st: &mut Stats) {
             return;
         }
     };
+    check_built_tables_in(core_out, prof_out, st)
+}
+
+/// the same check on the tables found in two given output directories
+pub fn check_built_tables_in(core_out: PathBuf, prof_out: PathBuf, st: &mut Stats) {
     let core_res = repo_dir().join("precis-core/resources/ucd");
     let prof_res = repo_dir().join("precis-profiles/resources/ucd");
     let load = |p: PathBuf| std::fs::read_to_string(&p).map_err(|e| format!("{}: {}", p.display(), e));
@@ -1012,6 +1172,8 @@ pub fn run(_env: &Env, run: &Run) -> (Stats, Coverage) {
     for s in shards {
         st.merge(s);
     }
+    // (f) the build scripts under every single deviation from the default build environment
+    check_build_script_environments(&mut st);
     // (e) environment fault: the output device is full
     check_output_failure(&mut st);
     // (d) two generator pipelines (own inputs, own output files) at the same time in one process
@@ -1020,7 +1182,7 @@ pub fn run(_env: &Env, run: &Run) -> (Stats, Coverage) {
     st.sample(json!({"Scripts.txt": "0370..0371 ; P / 0372 ; P / 0373 ; Q (Q lines first)", "expected": "T_P = 0370-0372, T_Q = 0373, T_Z empty"}));
     st.sample(json!({"built": "all tables in OUT_DIR of precis-core and precis-profiles build scripts", "expected": "each denotes exactly what the repo's resource files assign, for every code point, and is binary-searchable"}));
     let cov = Coverage {
-        rule: format!("(a) every table the real build scripts just emitted (read from cargo's out_dir) x every code point, against an independent reader of the same input files; (b) every tiling of a {}-slot code-point window into {{gap, single entry, First/Last range}} with {} attribute bundles (gc/ccc/bidi/decomposition), at four window positions (0, mid-plane, ending at U+10FFFD, ending at U+10FFFE), through RustCodeGen+UcdFileGen+GeneralCategoryGen with UcdTableGen x4, UnassignedTableGen, ViramaTableGen, WidthMappingTableGen, BidiClassGen; (c) every assignment of {{none,P,Q}} to {} slots x every segmentation into single/range lines x both value-grouped orders and the fully reversed line order through UnicodeGen<Script> and, in rotation, the four other property-file types; (e) output-side faults - device full, unwritable handle, and a file-size limit at every KiB below the complete output - after which the generators must not report success with an incomplete file; (d) race-detector pass: every pair of 15 generator / registry-parser pipelines (own inputs, own outputs) on two free-running threads under ThreadSanitizer, outputs compared with the single-threaded ones; oracle per table: denotation (merged intervals and values) equals what the input assigns, entries strictly increasing and disjoint, declared length = emitted length, and a binary search with the library's own expression over real precis_core::Codepoints finds exactly the members (window +-2 and far probes); bidi uses the library's default-L lookup semantics; non-trivial = inputs with at least one range and two entries / two lines", n, nb, pn),
+        rule: format!("(a) every table the real build scripts just emitted (read from cargo's out_dir) x every code point, against an independent reader of the same input files; (b) every tiling of a {}-slot code-point window into {{gap, single entry, First/Last range}} with {} attribute bundles (gc/ccc/bidi/decomposition), at four window positions (0, mid-plane, ending at U+10FFFD, ending at U+10FFFE), through RustCodeGen+UcdFileGen+GeneralCategoryGen with UcdTableGen x4, UnassignedTableGen, ViramaTableGen, WidthMappingTableGen, BidiClassGen; (c) every assignment of {{none,P,Q}} to {} slots x every segmentation into single/range lines x both value-grouped orders and the fully reversed line order through UnicodeGen<Script> and, in rotation, the four other property-file types; (f) each compiled build script re-run under the default build environment and 13 single deviations from it (OPT_LEVEL 0/1/2/s/z, debug profile, debug info, 32-bit / big-endian / windows target, other working directory, Turkish locale, NUM_JOBS): every emitted file byte-identical to the real build; (e) output-side faults - device full, unwritable handle, and a file-size limit at every KiB below the complete output - after which the generators must not report success with an incomplete file; (d) race-detector pass: every pair of 15 generator / registry-parser pipelines (own inputs, own outputs) on two free-running threads under ThreadSanitizer, outputs compared with the single-threaded ones; oracle per table: denotation (merged intervals and values) equals what the input assigns, entries strictly increasing and disjoint, declared length = emitted length, and a binary search with the library's own expression over real precis_core::Codepoints finds exactly the members (window +-2 and far probes); bidi uses the library's default-L lookup semantics; non-trivial = inputs with at least one range and two entries / two lines", n, nb, pn),
         alphabet: json!({"bundles": BUNDLES.iter().take(nb as usize).map(|b| format!("{};{};{};{}", b.0, b.1, b.2, b.3)).collect::<Vec<_>>(), "window_bases": bases.iter().map(|b| format!("{:04X}", b)).collect::<Vec<_>>()}),
         bound_completed: format!("{} UnicodeData tilings x 4 positions; {} property-file configurations x 2 file types; built tables: all code points", nconf, npconf),
         exhaustive: false,
@@ -1037,6 +1199,11 @@ pub fn replay(_env: &Env, case: &Case) -> Vec<Violation> {
     let mut st = Stats::default();
     match case.op.as_str() {
         "race" => st.violations = crate::race::replay(case),
+        "build_env" => {
+            let mut all = Stats::default();
+            check_build_script_environments(&mut all);
+            st.violations = all.violations.into_iter().filter(|v| v.case.extra == case.extra).collect();
+        }
         "output_failure" => {
             let mut all = Stats::default();
             check_output_failure(&mut all);
